@@ -90,5 +90,8 @@ DropWalk(C, P, j, i, tol) ==     \* j: next candidate, i: index of the last retu
   ELSE IF i < Len(P) /\ AbsH(C[j][1] - P[i + 1][1]) <= 1 /\ AbsH(C[j][2] - P[i + 1][2]) <= 1
          THEN DropWalk(C, P, j + 1, i + 1, tol)
        ELSE i >= 1 /\ AbsH(C[j][3] - P[i][3]) < tol + 2 /\ DropWalk(C, P, j + 1, i, tol)
+\* (tol + 2: two thousandths of slack for heights recorded in thousandths.  On maps whose heights, tolerance and sample
+\* positions are all exactly representable -- the recorder checks that in floating point and says so, `exact` -- the caller
+\* passes tol - 2 and the comparison is the strict one of the property: a sample exactly one tolerance away is kept.)
 SparseDropOK(C, P, tol) == DropWalk(C, P, 1, 0, tol)
 =============================================================================
